@@ -84,6 +84,20 @@ theorem delete_keeps_expressions_on_their_bytes {ir ir' : IR} {b off len : Nat} 
     ∀ j, j ≠ i → ir'.exprsOf j = ir.exprsOf j :=
   delete_symExprs h hb hbi hiv
 
+/-- **a whole `insert`**: the old expressions of the block's byte interval stay on their bytes
+(`shiftKeys` around the replaced range), every expression of the patch appears at the patch
+position plus its offset inside the patch (`aset (block.offset + offset + k) e`, the patch's
+expression object as it is: symbol, addend, attributes), and no other interval the module had
+changes -/
+theorem insert_places_patch_expressions {ir ir' : IR} {b off repl last : Nat} {p : Patch} {blk : Block} {i : Nat}
+    {iv : Interval}
+    (h : ir.insert b off repl p = .ok (ir', last))
+    (hb : ir.block? b = some blk) (hbi : blk.bi = some i) (hiv : ir.interval? i = some iv) :
+    ir'.exprsOf i = some (p.text.symExprs.foldl (fun m (x : Nat × SymExpr) => aset (blk.off + off + x.1) x.2 m)
+      (shiftKeys (blk.off + off) repl p.text.data.length iv.symExprs)) ∧
+    ∀ j, j ≠ i → ir.exprsOf j ≠ none → ir'.exprsOf j = ir.exprsOf j :=
+  insert_symExprs h hb hbi hiv
+
 /-! ### non-vacuity -/
 example : shiftKeys 2 3 1 [(0, "a"), (2, "b"), (4, "c"), (5, "d"), (9, "e")] = [(0, "a"), (3, "d"), (7, "e")] := by decide
 
